@@ -921,6 +921,10 @@ impl FuzzHost {
         if let Ok(only) = std::env::var("VERIF_FUZZ_ONLY") {
             subs.retain(|s| s.name.contains(&only));
         }
+        if let Ok(skip) = std::env::var("VERIF_FUZZ_SKIP") {
+            // sub-checks whose single case is a long statistical / exhaustive run are not fuzz material
+            subs.retain(|s| !skip.split(',').any(|k| !k.is_empty() && s.name.contains(k)));
+        }
         assert!(!subs.is_empty());
         FuzzHost { prop: spec.id, subs, known: load_known(), strict: std::env::var("VERIF_FUZZ_STRICT").is_ok() }
     }
